@@ -187,9 +187,9 @@ def apply_live(objs, e, spec_before):
         n = e["up"]
         system = objs["system"]
         how = e.get("how", "assign")
-        i = [x.name for x in system.usage_patterns].index(n)
+        i = [S.key_of(x) for x in system.usage_patterns].index(n)
         if how == "assign":
-            system.usage_patterns = [x for x in system.usage_patterns if x.name != n]
+            system.usage_patterns = [x for x in system.usage_patterns if S.key_of(x) != n]
         elif how == "pop":
             system.usage_patterns.pop(i)
         elif how == "delitem":
